@@ -208,6 +208,15 @@ func c14History(c *wk.Ctx, idx int64, ops []nop) (nForged int, viol bool) {
 			closeSeq = e.seq
 		}
 	}
+	// a hunt asked for after Close must not send anything either (whatever StartHunt answers): the rule "nothing forged after
+	// Close" below covers the six seconds that follow
+	if idx%2 == 0 {
+		c.Guard("C08", func() any { return cs() }, func() {
+			h.StartHunt(c14Targets[int(idx)%len(c14Targets)])
+			h.StartHunt(packet.Addr{MAC: c14Targets[(int(idx)+1)%len(c14Targets)].MAC})
+		})
+		c.Obs("starthunt_after_close", 1)
+	}
 	time.Sleep(6 * time.Second)
 	synctest.Wait()
 	raw := rec.Take()
